@@ -179,7 +179,7 @@ func genFold(g *genCtx) string {
 			}
 		}
 	}
-	return string(s)
+	return makeSafe(string(s))
 }
 
 func foldClasses(v string, a A, f *fn) []string {
